@@ -20,6 +20,9 @@ pub fn run(name: &str, seed: u64, rest: &[String]) -> String {
         "rle_total" => rle_total(seed),
         "sparse" => sparse_oracle(seed),
         "compress_rule" => compress_rule(seed),
+        "mod_model" => mod_model(seed),
+        "mod_full" => mod_full(),
+        "build_lookup" => build_lookup(seed),
         _ => { let _ = rest; format!("{{\"oracle\":{},\"error\":\"unknown oracle\"}}", js(name)) }
     }
 }
@@ -222,4 +225,143 @@ fn compress_rule(seed: u64) -> String {
         }
     }
     none("compress_rule", tried)
+}
+
+use std::collections::BTreeMap;
+
+/// names whose TABLE_OFFSET hash falls into the same home slot of a 16-slot table (collision chains),
+/// including chains that start in the last slot and wrap around
+fn colliding_names(slot: u32, count: usize) -> Vec<String> {
+    let mut v = Vec::new();
+    let mut i = 0u32;
+    while v.len() < count {
+        let n = format!("f{:05}.dat", i);
+        if wow_mpq::crypto::hash_string(&n, 0) & 15 == slot { v.push(n); }
+        i += 1;
+    }
+    v
+}
+
+fn with_timeout<T: Send + 'static>(secs: u64, f: impl FnOnce() -> T + Send + 'static) -> Option<T> {
+    let (tx, rx) = std::sync::mpsc::channel();
+    std::thread::spawn(move || { let _ = tx.send(f()); });
+    rx.recv_timeout(std::time::Duration::from_secs(secs)).ok()
+}
+
+/// random add/replace/remove/rename sequences on a small archive with forced hash collisions,
+/// compared with a plain map after close + reopen
+fn mod_model(seed: u64) -> String {
+    use wow_mpq::{ArchiveBuilder, Archive, MutableArchive, AddFileOptions, ListfileOption};
+    let mut rng = Rng(seed ^ 0x60D);
+    let mut tried = 0;
+    for round in 0..40u64 {
+        let slot = if round % 2 == 0 { 15 } else { (rng.next() % 16) as u32 };
+        let names = colliding_names(slot, 5);
+        let dir = tempfile::tempdir().unwrap();
+        let path = dir.path().join("m.mpq");
+        let mut model: BTreeMap<String, Vec<u8>> = BTreeMap::new();
+        let mut b = ArchiveBuilder::new().listfile_option(ListfileOption::None);
+        for (i, n) in names.iter().take(2).enumerate() { let d = vec![i as u8 + 1; 10 + i]; b = b.add_file_data(d.clone(), n); model.insert(n.clone(), d); }
+        b = b.add_file_data(vec![9u8; 7], "untouched.bin"); model.insert("untouched.bin".into(), vec![9u8; 7]);
+        if b.build(&path).is_err() { continue; }
+        let mut log: Vec<String> = Vec::new();
+        let steps = 3 + (rng.next() % 6) as usize;
+        let p2 = path.clone();
+        let names2 = names.clone();
+        let mut ops: Vec<(u8, usize, usize, u8)> = Vec::new();
+        for _ in 0..steps { ops.push(((rng.next() % 4) as u8, (rng.next() % 5) as usize, (rng.next() % 5) as usize, (rng.next() % 200) as u8)); }
+        let ops2 = ops.clone();
+        let model0 = model.clone();
+        let r = with_timeout(30, move || -> Result<(BTreeMap<String, Vec<u8>>, Vec<String>), String> {
+            let mut model = model0;
+            let mut log = Vec::new();
+            let mut m = MutableArchive::open(&p2).map_err(|e| format!("open: {}", e))?;
+            for (op, i, j, v) in ops2 {
+                let n = &names2[i];
+                match op {
+                    0 | 1 => { let d = vec![v; 5 + i];
+                        let r = m.add_file_data(&d, n, AddFileOptions::new().replace_existing(true));
+                        log.push(format!("add({}) -> {}", n, r.is_ok()));
+                        if r.is_ok() { model.insert(n.clone(), d); } }
+                    2 => { let r = m.remove_file(n); log.push(format!("remove({}) -> {}", n, r.is_ok()));
+                        if r.is_ok() != model.contains_key(n) { return Err(format!("remove({}) returned {} but model has key: {}", n, r.is_ok(), model.contains_key(n))); }
+                        if r.is_ok() { model.remove(n); } }
+                    _ => { let t = &names2[j]; let r = m.rename_file(n, t); log.push(format!("rename({}, {}) -> {}", n, t, r.is_ok()));
+                        let expect = model.contains_key(n) && !model.contains_key(t);
+                        if r.is_ok() != expect { return Err(format!("rename({}, {}) returned {} but the map model says {}", n, t, r.is_ok(), expect)); }
+                        if r.is_ok() { let d = model.remove(n).unwrap(); model.insert(t.clone(), d); } }
+                }
+            }
+            m.flush().map_err(|e| format!("flush: {}", e))?;
+            drop(m);
+            Ok((model, log))
+        });
+        tried += 1;
+        let (model2, log2) = match r {
+            None => return fail("mod_model", format!("slot {} names {:?} ops {:?}", slot, names, ops), "an operation did not terminate within 30 s".into(), "every operation terminates".into()),
+            Some(Err(e)) => return fail("mod_model", format!("slot {} names {:?} ops {:?}", slot, names, ops), e, "agreement with a plain map".into()),
+            Some(Ok(x)) => x,
+        };
+        log = log2; model = model2;
+        let mut a = match Archive::open(&path) { Ok(a) => a, Err(e) => return fail("mod_model", format!("{:?}", log), format!("reopen failed: {}", e), "archive reopens".into()) };
+        let mut all: Vec<String> = names.clone(); all.push("untouched.bin".into());
+        for n in &all {
+            let got = a.read_file(n).ok();
+            let want = model.get(n).cloned();
+            if got != want {
+                return fail("mod_model", format!("names with equal home slot {}: {:?}; ops: {:?}", slot, names, log),
+                    format!("after reopen read_file({}) = {:?}", n, got.map(|g| g.len())), format!("{:?} (plain map model)", want.map(|g| g.len())));
+            }
+        }
+    }
+    none("mod_model", tried)
+}
+
+/// F6: adding into a MutableArchive whose 16-slot hash table is full must return (Ok or Err), not hang
+fn mod_full() -> String {
+    use wow_mpq::{ArchiveBuilder, MutableArchive, AddFileOptions, ListfileOption};
+    let dir = tempfile::tempdir().unwrap();
+    let path = dir.path().join("full.mpq");
+    let mut b = ArchiveBuilder::new().listfile_option(ListfileOption::None);
+    for i in 0..8 { b = b.add_file_data(vec![i as u8; 4], &format!("init{}.bin", i)); }
+    if let Err(e) = b.build(&path) { return format!("{{\"oracle\":\"mod_full\",\"error\":{:?}}}", e.to_string()); }
+    let r = with_timeout(20, move || {
+        let mut m = MutableArchive::open(&path).unwrap();
+        let mut res = Vec::new();
+        for i in 0..12 { res.push(m.add_file_data(&[1, 2, 3], &format!("extra{}.bin", i), AddFileOptions::new()).is_ok()); }
+        let _ = dir; res
+    });
+    match r {
+        None => fail("mod_full", "8 files in a 16-slot table, then 12 x add_file_data".into(), "add_file_data did not return within 20 s (probe loop never exits on a full table)".into(), "Ok or Err".into()),
+        Some(_) => none("mod_full", 12),
+    }
+}
+
+/// build -> open: every added name is found under case/slash variants, including collision chains that wrap
+fn build_lookup(seed: u64) -> String {
+    use wow_mpq::{ArchiveBuilder, Archive, ListfileOption};
+    let mut rng = Rng(seed ^ 0xB17D);
+    let mut tried = 0;
+    for round in 0..24u64 {
+        let slot = if round % 2 == 0 { 15 } else { (rng.next() % 16) as u32 };
+        let mut names = colliding_names(slot, 3);
+        names.push(format!("Dir\\Sub\\File{}.TXT", round));
+        let dir = tempfile::tempdir().unwrap();
+        let path = dir.path().join("b.mpq");
+        let mut b = ArchiveBuilder::new().listfile_option(if round % 3 == 0 { ListfileOption::Generate } else { ListfileOption::None });
+        for (i, n) in names.iter().enumerate() { b = b.add_file_data(vec![i as u8 + 1; 20 + i], n); }
+        if let Err(e) = b.build(&path) { return fail("build_lookup", format!("{:?}", names), format!("build failed: {}", e), "Ok".into()); }
+        let mut a = match Archive::open(&path) { Ok(a) => a, Err(e) => return fail("build_lookup", format!("{:?}", names), format!("open failed: {}", e), "Ok".into()) };
+        for (i, n) in names.iter().enumerate() {
+            for variant in [n.clone(), n.to_ascii_uppercase(), n.to_ascii_lowercase(), n.replace('\\', "/")] {
+                tried += 1;
+                let got = a.read_file(&variant).ok();
+                if got != Some(vec![i as u8 + 1; 20 + i]) {
+                    return fail("build_lookup", format!("files {:?} (home slot {} of 16), read_file({:?})", names, slot, variant), format!("{:?}", got.map(|g| g.len())), format!("{} bytes of {}", 20 + i, i + 1));
+                }
+            }
+        }
+        if a.read_file("never-added.bin").is_ok() { return fail("build_lookup", format!("{:?}", names), "read_file(never-added.bin) is Ok".into(), "not found".into()); }
+    }
+    none("build_lookup", tried)
 }
